@@ -117,6 +117,44 @@ func (s *sndSUT) atRest(o sndObs) bool {
 	return o.queue == 0 && !o.down // blocked in Dequeue
 }
 
+// unsettledClass names the state that keeps the sender from coming to rest (for fingerprints: a class of
+// states, not "something leaked").
+func (s *sndSUT) unsettledClass() string {
+	o := s.observeOnce()
+	snap := s.q.VerifSnapshot()
+	if o.exitPending {
+		// a parked push event whose exit is enabled has not taken it
+		for c := range snap.Processing {
+			i := s.conIdx[c]
+			if _, d := s.delivered[i]; d {
+				continue
+			}
+			kind := "sotw"
+			if i%2 == 1 {
+				kind = "delta"
+			}
+			if s.closed[i] {
+				return "parked-push-not-released-on-closed-stream(" + kind + "-client)"
+			}
+		}
+		return "parked-push-not-released-on-server-stop"
+	}
+	extra := o.tok - o.proc
+	switch {
+	case extra > 1:
+		return "token-held-without-processing-entry"
+	case extra < 0:
+		return "processing-entry-held-without-token"
+	case s.started && !o.exited && extra == 1 && o.queue > 0 && !o.down:
+		return "queue-nonempty-loop-blocked-in-dequeue"
+	case s.started && !o.exited && extra == 1 && o.down:
+		return "loop-blocked-in-dequeue-after-shutdown"
+	case s.started && !o.exited && extra == 0 && o.tok < s.capacity:
+		return "loop-idle-with-free-token"
+	}
+	return "unstable"
+}
+
 func (s *sndSUT) settle() string {
 	if s.crashed.Load() {
 		return "crashed"
@@ -225,7 +263,7 @@ func (s *sndSUT) judge(f []string, res string) {
 	switch f[0] {
 	case "start", "enq", "deliver", "pushdone", "close", "stop", "shut", "end":
 		if strings.HasSuffix(res, "UNSETTLED") {
-			s.fail("does-not-come-to-rest(token-or-processing-entry-leaked)")
+			s.fail("does-not-come-to-rest:" + s.unsettledClass())
 			return
 		}
 		if res == "bad-op" {
